@@ -260,6 +260,26 @@ def concrete_checks(chk):
             chk.violation(f"second-build:{which}", f"[{nm}] the first model is damaged: " + "; ".join(pr), dict(reproduced=True, inputs=dict(attempt=which), observed=dict(problems=pr), note="concrete history on the real code"))
         chk.enumerated.append(f"history: {nm}")
 
+    # a graph that hangs entirely off a user-declared total (nothing added to the builder explicitly): complete, named, and the total forwarded
+    def only_total():
+        a, b = lsl.Value(1.0), lsl.Value(2.0)
+        c = lsl.Calc(lambda x, y: x - y, a, b)
+        lp = lsl.Calc(lambda d: -d * d, c)
+        gb = lsl.GraphBuilder()
+        gb.log_prob_node = lp
+        m = gb.build_model()
+        pr = structure_problems(m)
+        for nd in (a, b, c, lp):
+            if not nd.name or nd.name not in m.nodes or m.nodes[nd.name] is not nd:
+                pr.append(f"user node {nd.name!r} is not part of the model under a non-empty name")
+        if abs(float(np.asarray(m.log_prob)) + 1.0) > 1e-6:
+            pr.append(f"log_prob = {float(np.asarray(m.log_prob))}, the declared node's value is -1.0")
+        return pr
+    pr = chk.guarded("only-total", "building a graph reachable only through a user-declared log_prob node", only_total)
+    if pr:
+        chk.violation("only-total", "[builder with nothing added but a user-declared log_prob node] " + "; ".join(pr[:4]), dict(reproduced=True, observed=dict(problems=pr), note="concrete inspection of the built model"))
+    chk.enumerated.append("graph reachable only through a user-declared log_prob node (unnamed nodes)")
+
     # rejected graphs: cycles and duplicate names
     def cyc1():
         v = lsl.Value(1.0, _name="v")
